@@ -43,7 +43,8 @@ META = {
     'ref': 'DESIGN.md section 5 C10',
 }
 
-PARAMS = ('a', 'b', 'n')
+PARAMS = ('a', 'b', 'n', 's', 'l', 'k')
+LENGTH = {'s': ('minchars', 'maxchars'), 'l': ('minlen', 'maxlen'), 'k': ('minbytes', 'maxbytes')}   # limits = lengths
 UNITS = {'': 0, 'mm': 1, 'K': 2}
 VIS = {1: 'user', 2: 'advanced', 3: 'expert', 9: 'bogus'}
 MODNAME = 'frappy_verifc10'          # get_class() only imports names starting with 'frappy'
@@ -55,7 +56,7 @@ def _classes():
     boot()
     if MODNAME in sys.modules:
         return sys.modules[MODNAME]
-    from frappy.core import Command, FloatRange, IntRange, Parameter, Property, Readable
+    from frappy.core import ArrayOf, BLOBType, Command, FloatRange, IntRange, Parameter, Property, Readable, StringType
     from frappy.params import Limit
 
     class CfgMod(Readable):
@@ -65,6 +66,9 @@ def _classes():
         a = Parameter('a', FloatRange(0, 100), default=1, readonly=False)
         b = Parameter('b', IntRange(0, 10), default=2, readonly=False)
         n = Parameter('n', FloatRange(0, 100), needscfg=True, readonly=False)
+        s = Parameter('s', StringType(maxchars=8), default='x', readonly=False)
+        l = Parameter('l', ArrayOf(FloatRange(), 0, 3), default=[], readonly=False)
+        k = Parameter('k', BLOBType(0, 4), default=b'', readonly=False)
         a_limits = Limit()
 
         def _hw(self, *ev):
@@ -76,6 +80,10 @@ def _classes():
 
         def write_n(self, value):
             self._hw('write', 'n', value)
+            return value
+
+        def write_s(self, value):
+            self._hw('write', 's', value)
             return value
 
         def read_a(self):
@@ -104,9 +112,18 @@ def _classes():
 
 # ------------------------------------------------------------------ gamma: entries -> python
 
+def _sized(ty, n):
+    """a string / list / bytes value of n half units = n // 2 items"""
+    k = n // 2
+    return {'str': ('abcdefghij' * 8)[:k], 'list': [0.5 * i for i in range(k)], 'tuple': [0.5 * i for i in range(k)],
+            'bytes': b'x' * k}[ty]
+
+
 def _pyval(e):
     v = e['v']
     ty, n = v['ty'], v['n']
+    if ty in ('list', 'bytes') or (ty == 'str' and e['par'] in LENGTH and e['prop'] == 'value'):
+        return _sized(ty, n)
     if ty == 'int':
         return n // 2 if n % 2 == 0 else n / 2
     if ty == 'float':
@@ -132,7 +149,8 @@ def _grouped(entries):
         if len(es) == 1 and es[0]['prop'] == 'value' and es[0]['form'] == 'B':
             res.append((par, True, _pyval(es[0])))
         else:
-            res.append((par, False, {e['prop']: _pyval(e) for e in es}))
+            names = dict(zip(('min', 'max'), LENGTH.get(par, ('min', 'max'))))      # min -> minchars ...
+            res.append((par, False, {names.get(e['prop'], e['prop']): _pyval(e) for e in es}))
     return res
 
 
@@ -163,6 +181,10 @@ def _mod_cfgdict(entries):
 def _tick(x):
     if isinstance(x, bool):
         return {'ty': 'bool', 'n': int(x)}
+    if isinstance(x, (str, tuple, list, bytes)):
+        return {'ty': type(x).__name__, 'n': 2 * len(x)}
+    if x is None:
+        return {'ty': 'NoneType', 'n': -99999}
     if isinstance(x, (int, float)) and x * 2 == int(x * 2) and abs(x) < 1e8:
         return {'ty': type(x).__name__, 'n': int(x * 2)}
     return {'ty': type(x).__name__, 'n': -99999}
@@ -180,8 +202,9 @@ def project(obj, entries, node=False):
         po = obj.parameters[p]
         info = po.for_export()['datainfo']
         st['start'][p] = _tick(po.value)
-        st['lo'][p] = _lim(info.get('min', -1e9))
-        st['hi'][p] = _lim(info.get('max', 1e9))
+        lo, hi = LENGTH.get(p, ('min', 'max'))
+        st['lo'][p] = _lim(info.get(lo, 0 if p in LENGTH else -1e9))
+        st['hi'][p] = _lim(info.get(hi, 1e9))
         st['unit'][p] = UNITS.get(info.get('unit', ''), -1)
         st['vis'][p] = int(po.visibility)
         st['readonly'][p] = bool(po.readonly)
@@ -195,6 +218,11 @@ def project(obj, entries, node=False):
         pr = []
         for n in (st['lo'][p] - 2, st['lo'][p], st['hi'][p], st['hi'][p] + 2):
             val = n // 2 if n % 2 == 0 else n / 2
+            if p in LENGTH:
+                if n < 0:                      # there is no value of negative length to offer
+                    pr.append({'n': n, 'ok': False})
+                    continue
+                val = _sized({'s': 'str', 'l': 'list', 'k': 'bytes'}[p], n)
             try:
                 if use_wrapper:
                     getattr(obj, 'write_' + p)(val)
@@ -251,9 +279,11 @@ def run_module(entries):
     ev = {'ev': 'module', 'cfg': entries}
     try:
         obj = mods.CfgMod('m', Log(), dict(cfgdict), srv)     # (SecNode hands a shallow copy to the constructor)
-        ev.update(out='accepted', st=project(obj, entries))
     except Exception as e:
+        obj = None
         ev.update(out='rejected', st={}, error=f'{type(e).__name__}: {e}'[:300])
+    if obj is not None:
+        ev.update(out='accepted', st=project(obj, entries))
     after = _digest(cfgdict)
     ev['cfgb'] = hashlib.sha1(before.encode()).hexdigest()[:12]
     ev['cfga'] = hashlib.sha1(after.encode()).hexdigest()[:12]
@@ -415,6 +445,13 @@ def random_cfg(rnd, healthy=0.5):
             put(p, 'readonly', {'ty': 'bool', 'n': rnd.choice([0, 1]), 'm': 0})
         if rnd.random() < 0.1:
             put(p, 'export', {'ty': 'bool', 'n': rnd.choice([0, 1]), 'm': 0})
+    for p, ty in (('s', 'str'), ('l', 'list'), ('k', 'bytes')):      # lengths: value and limits in ONE Param
+        if rnd.random() < 0.5:
+            put(p, 'value', {'ty': ty, 'n': 2 * rnd.randint(0, 12), 'm': 0}, rnd.choice('BPP'))
+            if rnd.random() < 0.7:
+                put(p, 'max', {'ty': 'int', 'n': 2 * rnd.randint(1, 14), 'm': 0})
+            if rnd.random() < 0.2:
+                put(p, 'min', {'ty': 'int', 'n': 2 * rnd.randint(0, 3), 'm': 0})
     if rnd.random() < 0.2:
         put('op', 'value', _num(rnd, 0, 20), 'B')
     if rnd.random() < 0.15:
@@ -424,7 +461,7 @@ def random_cfg(rnd, healthy=0.5):
     if not clean:
         for _ in range(rnd.randint(1, 3)):
             k = rnd.randrange(12)
-            p = rnd.choice(PARAMS)
+            p = rnd.choice(('a', 'b', 'n'))
             if k == 0:
                 put(p, 'value', {'ty': 'str', 'n': 0, 'm': 0}, rnd.choice('BP'))
             elif k == 1:
